@@ -7,3 +7,9 @@ pub(crate) mod c52 {
     use super::super::*;
     include!(concat!(env!("LIBP2P_VERIF"), "/units/C52/check_limit.rs"));
 }
+
+pub(crate) mod c52b {
+    #[allow(unused_imports)]
+    use super::super::*;
+    include!(concat!(env!("LIBP2P_VERIF"), "/units/C52/behaviour.rs"));
+}
